@@ -342,6 +342,7 @@ type ev struct {
 	id   id2
 	data int // token; 0 = empty payload
 	err  bool
+	stall bool // the stream hangs here until the request context is done (then: the context's error)
 }
 
 func fmtEvs(evs []ev) string {
@@ -350,7 +351,7 @@ func fmtEvs(evs []ev) string {
 	}
 	s := make([]string, len(evs))
 	for i, e := range evs {
-		if e.err {
+		if e.err || e.stall {
 			s[i] = "!"
 		} else {
 			s[i] = fmt.Sprintf("%s=%d", e.id, e.data)
@@ -372,6 +373,7 @@ type world struct {
 	fetchFail map[string]bool
 	timeouts  int
 	holds     map[string]map[id2]bool // Fetch API cases: host -> the documents it stores (nil: every requested one)
+	stallFired bool
 }
 
 func newWorld() *world {
@@ -504,6 +506,10 @@ func applyOps(host string, req []id2, ops string, holds map[string]map[id2]bool)
 			if k <= len(evs) {
 				evs = evs[:k]
 			}
+		case 'S': // the stream stalls after k events until the request's deadline
+			if k <= len(evs) {
+				evs = append(evs[:k:k], ev{stall: true})
+			}
 		case 'x':
 			if k <= len(evs) {
 				x := ev{id: extraID, data: dataToken(host, extraID)}
@@ -530,6 +536,8 @@ type fetchStream struct {
 	grpc.ClientStream
 	evs []ev
 	pos int
+	ctx context.Context
+	w   *world
 }
 
 func packDoc(id id2, tok int) []byte {
@@ -544,6 +552,18 @@ func (s *fetchStream) Recv() (*storeapi.BinaryData, error) {
 		return nil, io.EOF
 	}
 	e := s.evs[s.pos]
+	if e.stall {
+		if s.ctx == nil {
+			return nil, status.Error(codes.DeadlineExceeded, "scripted stall without a context")
+		}
+		<-s.ctx.Done() // the store hangs; the client stream ends with the context's error
+		if s.w != nil {
+			s.w.mu.Lock()
+			s.w.stallFired = true
+			s.w.mu.Unlock()
+		}
+		return nil, status.FromContextError(s.ctx.Err()).Err()
+	}
 	if e.err {
 		return nil, status.Error(codes.Unavailable, "scripted stream failure")
 	}
@@ -575,7 +595,7 @@ func (f *fake) Fetch(ctx context.Context, in *storeapi.FetchRequest, _ ...grpc.C
 	}
 	evs := applyOps(f.host, req, ops, w.holds)
 	w.delivered[f.host] = evs
-	return &fetchStream{evs: evs}, nil
+	return &fetchStream{evs: evs, ctx: ctx, w: w}, nil
 }
 
 // ---------------------------------------------------------------- topology helpers
@@ -1058,6 +1078,7 @@ type result struct {
 	w        *world
 	hotTier  byte
 	timeouts int
+	cancelAfter int // the request deadline fired during this many-th call of the document iterator (-1: it did not)
 }
 
 // buildCase installs the scripts of a case into a fresh world and returns the ingestor over the fakes
@@ -1100,14 +1121,20 @@ func buildCase(c tcase) (*world, *search.Ingestor, byte) {
 func runCase(c tcase) result {
 	w, si, hotTier := buildCase(c)
 	inv := invert(si.VerifSourceByClient())
-	res := result{w: w, hotTier: hotTier}
+	res := result{w: w, hotTier: hotTier, cancelAfter: -1}
 	func() {
 		defer func() {
 			if r := recover(); r != nil {
 				res.kind = "panic"
 			}
 		}()
-		qpr, docs, _, err := si.Search(context.Background(), newSR(c.off, c.size, c.rev, c.fetch), nil)
+		ctx := context.Background()
+		if hasStall(c) {
+			var cancel context.CancelFunc
+			ctx, cancel = context.WithTimeout(ctx, stallTimeout)
+			defer cancel()
+		}
+		qpr, docs, _, err := si.Search(ctx, newSR(c.off, c.size, c.rev, c.fetch), nil)
 		k := errKind(err)
 		if qpr == nil {
 			res.kind = "err " + k
@@ -1124,7 +1151,23 @@ func runCase(c tcase) result {
 			res.ids = append(res.ids, id2{uint64(x.ID.MID), uint64(x.ID.RID)})
 			res.hosts = append(res.hosts, inv[x.Source])
 		}
-		for _, d := range drain(docs, len(qpr.IDs)) {
+		fired := func() bool {
+			w.mu.Lock()
+			defer w.mu.Unlock()
+			return w.stallFired
+		}
+		if fired() {
+			res.cancelAfter = 0
+		}
+		for i := 0; i < len(qpr.IDs); i++ { // like makeProtoDocs, stopping at the first error
+			sd, derr := docs.Next()
+			if res.cancelAfter < 0 && fired() {
+				res.cancelAfter = i + 1
+			}
+			if derr != nil {
+				break
+			}
+			d := fromStreaming(sd)
 			d.src = srcNat(inv[uint64(d.src)])
 			res.docs = append(res.docs, d)
 		}
@@ -1154,13 +1197,13 @@ func copyMap[V any](m map[string]V) map[string]V {
 // snapshot must be called with w.mu held
 func (w *world) snapshot() *world {
 	return &world{search: copyMap(w.search), gated: copyMap(w.gated), fetchOps: copyMap(w.fetchOps), hint: w.hint, called: copyMap(w.called),
-		fetchReq: copyMap(w.fetchReq), fetchHint: copyMap(w.fetchHint), delivered: copyMap(w.delivered), fetchFail: copyMap(w.fetchFail), timeouts: w.timeouts, holds: w.holds}
+		fetchReq: copyMap(w.fetchReq), fetchHint: copyMap(w.fetchHint), delivered: copyMap(w.delivered), fetchFail: copyMap(w.fetchFail), timeouts: w.timeouts, holds: w.holds, stallFired: w.stallFired}
 }
 
 // runAPI sends the case through proxyapi's Search handler (doSearch, processSearchErrors, makeProtoDocs)
 func runAPI(c tcase) (impl string, w *world) {
 	w0, si, _ := buildCase(c)
-	api := proxyapi.VerifNewGrpcV1C16(si, 20*time.Second)
+	api := proxyapi.VerifNewGrpcV1C16(si, reqTimeout(c))
 	order := seqproxyapi.Order_ORDER_DESC
 	if c.rev {
 		order = seqproxyapi.Order_ORDER_ASC
@@ -1480,8 +1523,12 @@ func genFCase(r *vh.RNG) fcase {
 
 func wireAnswer(c tcase) (req, impl string) {
 	useShuffle(c.shuf)
+	ca := -1
+	if hasStall(c) {
+		ca = runCase(c).cancelAfter
+	}
 	w0, si, _ := buildCase(c)
-	srv := proxyapi.VerifNewGRPCServerC16(si, 20*time.Second)
+	srv := proxyapi.VerifNewGRPCServerC16(si, reqTimeout(c))
 	lis := bufconn.Listen(1 << 20)
 	go func() { _ = srv.Serve(lis) }()
 	defer srv.Stop()
@@ -1533,9 +1580,9 @@ func wireAnswer(c tcase) (req, impl string) {
 	ord, behav, _ := fetchTrace(w)
 	wh, wc := normWinner(c.hot, c.wh), normWinner(c.cold, c.wc)
 	req = fmt.Sprintf("wire %s %s %d %d %s %d %s %s", fmtTier(c.hot, arrivalOrder(c.hot, wh)), fmtTier(c.cold, arrivalOrder(c.cold, wc)),
-		c.off, c.size, vh.B(c.rev), c.hint, vh.JoinInts(ord), vh.JoinStrs(behav, "|"))
+		c.off, c.size, vh.B(c.rev), c.hint, vh.JoinInts(ord), vh.JoinStrs(behav, "|")) + caSuffix(ca)
 	_, si2, _ := buildCase(c)
-	srv2 := proxyapi.VerifNewGRPCServerC16(si2, 20*time.Second)
+	srv2 := proxyapi.VerifNewGRPCServerC16(si2, reqTimeout(c))
 	lis2 := bufconn.Listen(1 << 20)
 	go func() { _ = srv2.Serve(lis2) }()
 	defer srv2.Stop()
@@ -1598,6 +1645,32 @@ func runWire(cases []tcase) (reqs, impls []string, died bool, detail string) {
 	return reqs, impls, false, ""
 }
 
+const stallTimeout = 250 * time.Millisecond
+
+// hasStall: some store's fetch stream hangs until the request deadline (op S<k>)
+func hasStall(c tcase) bool {
+	for _, ops := range c.fb {
+		if strings.Contains(ops, "S") {
+			return true
+		}
+	}
+	return false
+}
+
+func reqTimeout(c tcase) time.Duration {
+	if hasStall(c) {
+		return stallTimeout
+	}
+	return 20 * time.Second
+}
+
+func caSuffix(ca int) string {
+	if ca < 0 {
+		return ""
+	}
+	return fmt.Sprintf(" ca=%d", ca)
+}
+
 // sharedIDs: does some ID occur in the answers of two different shards of the same tier?
 func sharedIDs(t [][]call) bool {
 	seen := map[id2]int{}
@@ -1633,7 +1706,7 @@ func fetchTrace(w *world) (order []int, behav []string, unknownStreams int) {
 		}
 		unk := false
 		for _, e := range w.delivered[h] {
-			if e.err {
+			if e.err || e.stall {
 				break
 			}
 			if !req[e.id.String()] {
@@ -1656,7 +1729,7 @@ func toModel(c tcase, r result) (req, impl string, comparable bool, tags []strin
 	comparable = unknownStreams <= 1
 	fetch := c.fetch
 	req = fmt.Sprintf("full %s %s %d %d %s %s %d %s %s %s", fmtTier(c.hot, arrivalOrder(c.hot, wh)), fmtTier(c.cold, arrivalOrder(c.cold, wc)),
-		c.off, c.size, vh.B(c.rev), vh.B(withSrc), c.hint, vh.B(fetch), vh.JoinInts(order), vh.JoinStrs(behav, "|"))
+		c.off, c.size, vh.B(c.rev), vh.B(withSrc), c.hint, vh.B(fetch), vh.JoinInts(order), vh.JoinStrs(behav, "|")) + caSuffix(r.cancelAfter)
 	switch {
 	case r.kind == "ok":
 		ids := make([]string, len(r.ids))
@@ -1839,7 +1912,11 @@ func checkProperty(c tcase, r result) []finding {
 		return fs
 	}
 	// documents: positionally aligned with the IDs
-	if len(r.ids) > 0 && len(r.docs) != len(r.ids) {
+	if r.cancelAfter >= 0 && len(r.docs) <= len(r.ids) {
+		// the request deadline fired during the fetch phase: the iterator ends early (makeProtoDocs fills the rest with
+		// empty documents); what was read must still be aligned - checked below on the prefix - and the API-level
+		// oracle checks that the response lists every ID
+	} else if len(r.ids) > 0 && len(r.docs) != len(r.ids) {
 		bad("proxy/search/merged_docs_iterator.go:mergedStreamIterator.Next", "docs-count", fmt.Sprintf("%d IDs but %d documents", len(r.ids), len(r.docs)))
 		return fs
 	}
@@ -1879,13 +1956,16 @@ func checkProperty(c tcase, r result) []finding {
 	}
 	for i, id := range r.ids {
 		h := r.hosts[i]
+		if i >= len(r.docs) {
+			break // deadline during the fetch phase: not read
+		}
 		if w.fetchFail[h] || r.docs[i].data != 0 {
 			continue
 		}
 		copies, guarded, nonEmpty := 0, true, true
 		maxBefore := -1
 		for _, e := range w.delivered[h] {
-			if e.err {
+			if e.err || e.stall {
 				break
 			}
 			if e.id == id {
@@ -2045,6 +2125,17 @@ func smallCases(r *vh.RNG, thorough bool) []tcase {
 		res = append(res, tcase{hot: [][]call{{{kind: 'r', code: 'n', total: tt[0], ids: dupIDs}}, {{kind: 'r', code: 'n', total: tt[1], ids: dupIDs}}},
 			size: 5, wh: -1, wc: -1, fb: map[string]string{}})
 	}
+	// the proxy's SearchTimeout fires during the fetch phase: every shard answered the search, one store's document
+	// stream hangs after k documents until the deadline
+	{
+		a := []call{{kind: 'r', code: 'n', total: 4, ids: []id2{{40, 1}, {30, 1}, {20, 1}, {10, 1}}}}
+		b := []call{{kind: 'r', code: 'n', total: 3, ids: []id2{{35, 2}, {25, 2}, {15, 2}}}}
+		for k := 0; k <= 3; k++ {
+			res = append(res, tcase{hot: [][]call{a}, size: 4, fetch: true, wh: -1, wc: -1, fb: map[string]string{"h0_0": fmt.Sprintf("S%d", k)}})
+			res = append(res, tcase{hot: [][]call{a, b}, size: 6, hint: 7, fetch: true, wh: -1, wc: -1, fb: map[string]string{"h1_0": fmt.Sprintf("S%d", k)}})
+		}
+		res = append(res, tcase{hot: [][]call{a, b}, size: 6, fetch: true, wh: -1, wc: -1, fb: map[string]string{"h0_0": "S2", "h1_0": "m0"}})
+	}
 	// Offset+Size at and beyond the int range: the sum wraps for MaxInt64+1 ... (MergeQPRs panics), not for 2^62+...
 	for _, off := range []int{math.MaxInt64, math.MaxInt64 - 1, 1 << 62} {
 		for _, size := range []int{1, 2, math.MaxInt32} {
@@ -2144,7 +2235,8 @@ func main() {
 	skipped := 0
 	for _, c := range cases {
 		useShuffle(c.shuf)
-		{
+		r := runCase(c)
+		if !hasStall(c) { // Export has its own (long) timeout; the stalled-fetch cases are about the Search handlers
 			implX, endedOK, sentX, wx := runExport(c)
 			orderX, behavX, unkX := fetchTrace(wx)
 			sharedX := sharedIDs(c.hot) || sharedIDs(c.cold)
@@ -2162,7 +2254,7 @@ func main() {
 				okBytes := d.data == 0
 				for h, evs := range wx.delivered {
 					for _, e := range evs {
-						if !e.err && e.id == d.id && e.data == d.data && dataToken(h, d.id) == d.data {
+						if !e.err && !e.stall && e.id == d.id && e.data == d.data && dataToken(h, d.id) == d.data {
 							okBytes = true
 						}
 					}
@@ -2180,8 +2272,20 @@ func main() {
 			if unk <= 1 && !(shared && len(wa.fetchReq) > 0) && wa.timeouts == 0 {
 				wh, wc := normWinner(c.hot, c.wh), normWinner(c.cold, c.wc)
 				reqAPI := fmt.Sprintf("api %s %s %d %d %s %d %s %s", fmtTier(c.hot, arrivalOrder(c.hot, wh)), fmtTier(c.cold, arrivalOrder(c.cold, wc)),
-					c.off, c.size, vh.B(c.rev), c.hint, vh.JoinInts(order), vh.JoinStrs(behav, "|"))
+					c.off, c.size, vh.B(c.rev), c.hint, vh.JoinInts(order), vh.JoinStrs(behav, "|")) + caSuffix(r.cancelAfter)
 				chAPI.Add(reqAPI, implAPI, !faultFree(c), "answer="+strings.Join(strings.Fields(implAPI)[:min(2, len(strings.Fields(implAPI)))], "-"))
+			}
+			if strings.HasPrefix(implAPI, "ok partial=") && r.kind == "ok" {
+				// the IDs travel only in Docs: the response must list every ID Search returned (undelivered documents empty)
+				got := ""
+				for _, f := range strings.Fields(implAPI) {
+					if strings.HasPrefix(f, "ids=") {
+						got = strings.TrimPrefix(f, "ids=")
+					}
+				}
+				if got != fmtIDs(r.ids) {
+					rep.Violate(vh.Violation{Site: "proxyapi/grpc_v1.go:makeProtoDocs", Class: "ids-dropped-from-response", What: fmt.Sprintf("Search returned the IDs %s, the API response lists %s and is not an error (deadline during the fetch phase: %v)", fmtIDs(r.ids), got, r.cancelAfter >= 0), Replay: []string{c.String()}})
+				}
 			}
 			if strings.HasPrefix(implAPI, "ok partial=0") {
 				// presented as complete: every shard of the consulted tier answered and no answering store reported errors
@@ -2211,7 +2315,6 @@ func main() {
 				rep.Violate(vh.Violation{Site: "proxyapi/grpc_search.go:Search", Class: "inconsistent-partial-flag", What: implAPI, Replay: []string{c.String()}})
 			}
 		}
-		r := runCase(c)
 		req, impl, comparable, tags := toModel(c, r)
 		faulty := !faultFree(c)
 		if comparable {
@@ -2239,7 +2342,7 @@ func main() {
 		chWire := vh.NewChannel("wire", "real gRPC server of the proxy (initServer: recover / log / pool interceptors) + real gRPC client over bufconn, Search and ComplexSearch, in a child process, vs SV.ProxyRead.api with a panic rendered as codes.Internal (the recover interceptor): Offset in {MaxInt64, MaxInt64-1, 2^62} x Size in {1, 2, MaxInt32} over answering / partial / failing / wants-old-data topologies, plus a seeded sample; non-trivial = the request does not succeed completely")
 		var wcases []tcase
 		for _, c := range cases {
-			big := c.off >= 1<<62
+			big := c.off >= 1<<62 || hasStall(c)
 			if big || (len(wcases) < o.Pick(150, 600) && !sharedIDs(c.hot) && !sharedIDs(c.cold) && len(c.shuf) == 0) {
 				wcases = append(wcases, c)
 			}
@@ -2326,7 +2429,7 @@ func main() {
 				okBytes := false
 				for h, evs := range w.delivered {
 					for _, e := range evs {
-						if !e.err && e.id == d.id && e.data == d.data && dataToken(h, d.id) == d.data {
+						if !e.err && !e.stall && e.id == d.id && e.data == d.data && dataToken(h, d.id) == d.data {
 							okBytes = true
 						}
 					}
